@@ -403,6 +403,11 @@ func (x *Exec) verifyContract(ct *Contract) (err error) {
 		ct.fn = fn
 		for _, p := range fn.Params {
 			v := x.symValue(st, p.Type(), p.Name())
+			for _, np := range ct.nilParams {
+				if np == p.Name() {
+					v = zeroValue(p.Type())
+				}
+			}
 			args = append(args, v)
 			env.vars[p.Name()] = v
 			x.curInputs[p.Name()] = v
